@@ -226,7 +226,8 @@ struct Run {
     std::vector<std::pair<size_t, Json> > forced;           // faulted operations that changed something: index -> state they left   // faulted operations that left every container unchanged (attribution pass drops them)
     std::string lastFaultFamily; size_t lastFaultOp = 0;
     long liveBias = 0, extraLive = 0;                       // extraLive: counting elements inside temporaries the harness holds during this op
-    const char* apiClass = ""; const char* apiMethods = "";   // who the harness calls directly (assert attribution)
+    const char* apiClass = "";                              // class under test (assert attribution)
+    uint64_t refusedAtCall = 0;
 
     Run(Result& r, Trace& t, const Json& p) : res(r), tr(t), plan(p) {
         modeB = p.str("mode", "A") == "B"; cont = p.str("container"); elem = p.str("elem", "int");
@@ -236,7 +237,7 @@ struct Run {
     int vid(const char* k = "v") const { return (int)(uarg(k) & 0xffff); }
     std::vector<int> vals(const char* k = "vals") const {
         std::vector<int> r; if (!op) return r; const Json* j = op->find(k); if (!j || j->t != Json::Arr) return r;
-        for (auto& x : j->a) { int64_t v = x.t == Json::Int ? x.i : 0; if (v < 0) v = -v; r.push_back((int)(v & 0xffff)); if (r.size() >= 64) break; }
+        for (auto& x : j->a) { int64_t v = x.t == Json::Int ? x.i : 0; if (v < 0) v = -v; r.push_back((int)(v & 0xffff)); if (r.size() >= 8192) break; }
         return r;
     }
     std::string where() const { return "op#" + std::to_string(opIdx) + " " + kind + " [" + stateClass + "]"; }
@@ -272,7 +273,7 @@ struct Run {
     template <class F> void call(F f) {
         fired = threw = false;
         const uint64_t k = (modeB && op) ? (uint64_t)(op->num("fault", 0) > 0 ? op->num("fault", 0) : 0) : 0;
-        const uint64_t before = mm.refused;
+        const uint64_t before = mm.refused; refusedAtCall = before;
         mm.beginOp(); if (k) mm.setFault(k);
         try { f(); }
         catch (const xercesc::OutOfMemoryException&) { threw = true; }
